@@ -118,3 +118,60 @@ pub fn k_histories(sizes: &[usize], tmax: usize) -> Vec<Vec<String>> {
     }
     out
 }
+
+/// segment tree histories: many values in one bucket list (past the buffer growth points 4, 8),
+/// staggered expirations, partially consumed queries, stale-clock patterns around clear + restart,
+/// and pairs of overlapping ranges.  `nr` = number of ranges in the explorer's alphabet.
+pub fn s_histories(nr: usize) -> Vec<Vec<String>> {
+    let mut out = vec![];
+    for ri in 0..nr {
+        for k in [1usize, 2, 3, 4, 5, 6, 8, 9, 12] {
+            let mut h: Vec<String> = (0..k).map(|i| format!("Ins(r{ri},{})", i % 4)).collect();
+            for t in 0..=4 {
+                h.push(format!("Q(r0,{t},all)"));
+                h.push(format!("Q(r{ri},{t},1)"));
+                h.push(format!("Q(r{ri},{t},all)"));
+            }
+            out.push(h);
+            let mut h: Vec<String> = (0..k).map(|i| format!("Ins(r{ri},{})", (i * 3 + 1) % 5)).collect();
+            for t in [1usize, 1, 3, 4] {
+                h.push(format!("Q(r{ri},{t},2)"));
+                h.push(format!("Ins(r{ri},{})", t + 2));
+                h.push(format!("Q(r{ri},{t},all)"));
+            }
+            h.push("Clear()".into());
+            h.push(format!("Q(r0,4,all)"));
+            h.push(format!("Ins(r{ri},9)"));
+            h.push(format!("Q(r{ri},5,all)"));
+            out.push(h);
+        }
+        for n in 1..=9usize {
+            let mut h = vec!["Q(r0,10,all)".to_string(), format!("Ins(r{ri},12)"), format!("Q(r{ri},11,all)"), "ClearRestart()".to_string()];
+            for _ in 0..n {
+                h.push(format!("Ins(r{ri},5)"));
+            }
+            h.push(format!("Q(r{ri},0,all)"));
+            h.push("Q(r0,5,all)".into());
+            h.push("Q(r0,6,all)".into());
+            out.push(h);
+        }
+    }
+    for ra in 0..nr {
+        for rb in 0..nr {
+            for n in [3usize, 4, 5, 8] {
+                let mut h: Vec<String> = (0..n).map(|i| format!("Ins(r{ra},{})", 1 + i % 3)).collect();
+                h.push("Q(r0,1,all)".into());
+                h.push(format!("Ins(r{rb},3)"));
+                h.push(format!("Q(r{rb},1,all)"));
+                h.push(format!("Q(r{ra},2,2)"));
+                h.push(format!("Ins(r{ra},9)"));
+                h.push(format!("Q(r{rb},3,all)"));
+                h.push(format!("Q(r{ra},4,all)"));
+                h.push("Q(r0,9,all)".into());
+                h.push("Q(r0,10,all)".into());
+                out.push(h);
+            }
+        }
+    }
+    out
+}
